@@ -72,8 +72,14 @@ def _check(solver, cond, timeout_ms, _retry=True):
     is retried once with three times the budget: wall-clock budgets must not flip a verdict on a loaded machine."""
     st, m, dt = _check_once(solver, cond, timeout_ms)
     if st == "unknown" and _retry and dt * 1000 >= 0.8 * timeout_ms:
-        st, m, dt2 = _check_once(solver, cond, 3 * timeout_ms)
-        dt += dt2
+        for seed in (7, 23):
+            s2 = z3.Solver()
+            s2.set("random_seed", seed)
+            s2.add(*solver.assertions())
+            st, m, dt2 = _check_once(s2, cond, 3 * timeout_ms)
+            dt += dt2
+            if st != "unknown":
+                break
     return st, m, dt
 
 
@@ -451,6 +457,8 @@ def verify_static(case, repo, res, t0):
         targets = []
         for cq in spec["classes"]:
             targets += public_methods(repo, [cq])
+            if spec.get("constructors") and "__init__" in repo.find(cq).methods:
+                targets.append(cq + ".__init__")  # constructors too (they may write fields; 'order' rules apply)
         for q in spec.get("functions", ()):
             targets.append(q)
         kinds = spec.get("kinds")
